@@ -133,6 +133,18 @@ func (e *SpecEnv) ident(name string) Val {
 	if name == "nil" {
 		return NilV{}
 	}
+	if name == "range_i" {
+		// hidden index of the innermost enclosing range loop
+		var best types.Object
+		for o := range e.cur.vars {
+			if o.Name() == "range_i" && (!e.scopePos.IsValid() || o.Pos() < e.scopePos) && (best == nil || o.Pos() > best.Pos()) {
+				best = o
+			}
+		}
+		if best != nil {
+			return e.cur.vars[best]
+		}
+	}
 	// Go local / parameter visible at scopePos
 	if e.scopePos.IsValid() && c.pkg.types != nil {
 		if sc := c.pkg.types.Scope().Innermost(e.scopePos); sc != nil {
@@ -251,7 +263,9 @@ func (e *SpecEnv) index(b, iv Val) Val {
 		return e.specLoad(c.elemPrefix(s.Elem), s.Elem, s.Ref, c.iadd(s.Off, i))
 	case Seq:
 		i := e.idxTerm(iv)
-		return Scalar{Select(s.Arr, c.iadd(s.Off, i)), s.Elem}
+		el := Select(s.Arr, c.iadd(s.Off, i))
+		c.noteUnsigned(el, s.Elem)
+		return Scalar{el, s.Elem}
 	case ArrayV:
 		i := e.idxTerm(iv)
 		return e.specLoad(c.elemPrefix(s.Elem), s.Elem, s.Ref, i)
@@ -592,8 +606,26 @@ func (e *SpecEnv) seqEq(a, b Seq) Term {
 	c := e.c
 	i := c.sym("k")
 	it := Term{i, c.idxSort()}
-	body := Implies(And(c.ile(c.idx(0), it), c.ilt(it, a.Len)), Eq(Select(a.Arr, c.iadd(a.Off, it)), Select(b.Arr, c.iadd(b.Off, it))))
-	return And(Eq(a.Len, b.Len), Term{fmt.Sprintf("(forall ((%s %s)) %s)", i, c.idxSort(), body.S), SBool})
+	// quantify over the absolute index into a's row so that the trigger (select a.row j) matches any read of that row
+	var bj Term
+	if a.Off.S == b.Off.S {
+		bj = it
+	} else {
+		bj = c.iadd(c.isub(it, a.Off), b.Off)
+	}
+	arr := a.Arr
+	usePattern := false
+	if c.noName == 0 && e.qdepth == 0 {
+		if !c.declaredSym[arr.S] {
+			arr = c.name(arr, "seqarr") // arrays are named by declared constants (see Ctx.name)
+		}
+		usePattern = c.declaredSym[arr.S]
+	}
+	body := Implies(And(c.ile(a.Off, it), c.ilt(it, c.iadd(a.Off, a.Len))), Eq(Select(arr, it), Select(b.Arr, bj)))
+	if !usePattern {
+		return And(Eq(a.Len, b.Len), Term{fmt.Sprintf("(forall ((%s %s)) %s)", i, c.idxSort(), body.S), SBool})
+	}
+	return And(Eq(a.Len, b.Len), Term{fmt.Sprintf("(forall ((%s %s)) (! %s :pattern ((select %s %s))))", i, c.idxSort(), body.S, arr.S, i), SBool})
 }
 
 func (e *SpecEnv) call(n *SCall) Val {
@@ -677,6 +709,13 @@ func (e *SpecEnv) call(n *SCall) Val {
 			return Scalar{s.Off, tInt}
 		}
 		e.fail("off of non-slice")
+	case "samehdr":
+		a, aok := e.eval(n.Args[0]).(Slice)
+		b, bok := e.eval(n.Args[1]).(Slice)
+		if !aok || !bok {
+			e.fail("samehdr needs two slices")
+		}
+		return Scalar{And(Eq(a.Ref, b.Ref), Eq(a.Off, b.Off), Eq(a.Len, b.Len), Eq(a.Cap, b.Cap)), tBool}
 	case "sameobj":
 		a, b := e.eval(n.Args[0]), e.eval(n.Args[1])
 		return Scalar{Eq(refOf(a), refOf(b)), tBool}
@@ -1022,4 +1061,14 @@ func sexprString(x SExpr) string {
 		return q + " " + strings.Join(vs, ", ") + " :: " + sexprString(n.Body)
 	}
 	return "?"
+}
+
+// patternSafe: the term contains no boolean connectives / ite (which solvers reject inside triggers).
+func patternSafe(s string) bool {
+	for _, bad := range []string{"(ite ", "(and ", "(or ", "(=> ", "(not ", "(= ", "(<= ", "(< ", "(bvsle ", "(bvslt ", "(bvule ", "(bvult "} {
+		if strings.Contains(s, bad) {
+			return false
+		}
+	}
+	return true
 }
